@@ -293,11 +293,11 @@ func regionClass(reg string) string {
 
 var mutKinds = []string{"valid", "msg-other", "msg-append", "msg-truncate", "msg-tail-flip", "msg-tail-flip", "flip-sig", "other-key", "other-key-same-seed-other-hash",
 	"other-index-rewritten", "auth-of-other-index", "index-plus-2^h", "index-high-bits", "truncate-32", "extend-32", "pad-to-other-height",
-	"swap-wots-blocks", "zero-wots-block", "advance-wots-chain", "garbage", "root-pubseed-swapped", "sig-for-other-height-key"}
+	"resplit-sig-msg", "resplit-sig-msg", "swap-wots-blocks", "zero-wots-block", "advance-wots-chain", "garbage", "root-pubseed-swapped", "sig-for-other-height-key"}
 
 func TestMutators(t *testing.T) {
 	r := ev.New(t, prop, "TestMutators")
-	r.Rule("rapid draws a real key (pool of 3 seeds x 3 hashes x h in {4,6}), an index, a message (1 in 6 of them 4 KiB .. 70 KB long) and ONE named mutator (other message, a bit flipped in the message's tail, transplanted signature/auth path/index, wrong height or length, swapped/zeroed/advanced WOTS chain, garbage, ...); oracle lib<=>spec plus a-priori reject; non-trivial = derived from a valid triple by exactly one mutator (or valid), distinct by (hash,h,mutator,index,detail)")
+	r.Rule("rapid draws a real key (pool of 3 seeds x 3 hashes x h in {4,6}), an index, a message (1 in 6 of them 4 KiB .. 70 KB long) and ONE named mutator (the genuine triple is verified first; 1 in 4 cases are preceded by a verification with another Winternitz parameter at the same height) (other message, the same bytes re-split between signature and message, a bit flipped in the message's tail, transplanted signature/auth path/index, wrong height or length, swapped/zeroed/advanced WOTS chain, garbage, ...); oracle lib<=>spec plus a-priori reject; non-trivial = derived from a valid triple by exactly one mutator (or valid), distinct by (hash,h,mutator,index,detail)")
 	pool := [][]byte{make([]byte, 48), pu.DetBytes(r.SubSeed("pool-1"), 48), pu.DetBytes(r.SubSeed("pool-2"), 48)}
 	checks := r.PerShard(r.Pick(1600, 40000))
 	r.Rapid(t, "mut", checks, func(rt *rapid.T) {
@@ -346,6 +346,20 @@ func TestMutators(t *testing.T) {
 				pos := len(msg) - 1 - rapid.IntRange(0, tail-1).Draw(rt, "fromEnd")
 				c.Msg = flip(msg, pos*8+rapid.IntRange(0, 7).Draw(rt, "bit"))
 				detail = fmt.Sprintf("message bit flipped at byte %d of %d", pos, len(msg))
+			}
+		case "resplit-sig-msg":
+			// the SAME bytes, split differently: the head of the message is moved onto the end of the signature
+			// (or the tail of the signature onto the front of the message)
+			if len(msg) >= 32 && rapid.Bool().Draw(rt, "msgToSig") {
+				k := 32 * rapid.IntRange(1, len(msg)/32).Draw(rt, "blocks")
+				c.Sig = append(append([]byte{}, sig...), msg[:k]...)
+				c.Msg = msg[k:]
+				detail = fmt.Sprintf("%d message bytes moved to the end of the signature", k)
+			} else {
+				k := 32 * rapid.IntRange(1, h).Draw(rt, "blocks")
+				c.Msg = append(append([]byte{}, sig[len(sig)-k:]...), msg...)
+				c.Sig = sig[:len(sig)-k]
+				detail = fmt.Sprintf("%d signature bytes moved to the front of the message", k)
 			}
 		case "flip-sig":
 			bit := rapid.IntRange(0, len(sig)*8-1).Draw(rt, "bit")
@@ -449,6 +463,19 @@ func TestMutators(t *testing.T) {
 		}
 		c.Detail = tag + " " + kind + " " + detail
 		r.Count("mutator_"+kind, 1)
+		// history: the GENUINE triple is verified first (a verifier that remembers what it accepted must not be
+		// fooled afterwards), sometimes preceded by a verification with another Winternitz parameter at this height
+		if rapid.IntRange(0, 3).Draw(rt, "foreignW") == 0 {
+			w := rapid.SampledFrom([]uint32{4, 256}).Draw(rt, "w")
+			var fpk [67]byte
+			fpk[0], fpk[1] = byte(hf), byte(h/2)
+			base := map[uint32]int{4: 4 + 32 + 133*32, 256: 4 + 32 + 34*32}[w]
+			ev.Try(func() { xmss.VerifyWithCustomWOTSParamW(msg, make([]byte, base+32*h), fpk, w) })
+			r.Count("preceded_by_foreign_w_verification", 1)
+		}
+		if kind != "valid" {
+			report(rt, r, &triple{Class: "valid-before-mutation", Detail: tag + " genuine triple", Expect: "accept", Msg: msg, Sig: sig, PK: b.pk})
+		}
 		r.NonTrivial(uint(hf), h, kind, idx, si, detail, []byte(c.Msg))
 		r.Sample(map[string]any{"class": kind, "detail": c.Detail, "msg": pu.Short(c.Msg), "expect": c.Expect})
 		report(rt, r, c)
